@@ -56,7 +56,7 @@ def run_shard(shard, tier, seed, wd, res):
                 s.op("fq.negate_if", (ty, a), V.n(rng.getrandbits(1)))
                 b = rng.choice([(-a) % m, a, (a + 1) % m, rng.randrange(m)])
                 s.op("fq.cmp", (ty, a), (ty, b))
-                s.op("fq." + rng.choice(["lt", "gt", "le", "ge", "pcmp", "max"]), (ty, a), (ty, b))
+                s.op("fq." + rng.choice(["lt", "gt", "le", "ge", "pcmp", "max", "min"]), (ty, a), (ty, b))
     else:
         z = nonres(Q)
         vals = []
@@ -97,6 +97,10 @@ def run_shard(shard, tier, seed, wd, res):
             # the comparison operators (PartialOrd) are what the decoders use: y < -y
             s.op("fq2.lt", tx, ("q2", F.f2_neg(x)))
             s.op("fq2." + rng.choice(["gt", "le", "ge", "pcmp", "max"]), tx, ("q2", y))
+            # the provided methods of Ord (min, max, clamp) can be overridden independently of cmp
+            s.op("fq2.min", tx, ("q2", y)); s.op("fq2.max", tx, ("q2", y))
+            z_ = rng.choice([(rng.randrange(Q), x[1]), (rng.randrange(Q), y[1]), (rng.randrange(Q), rng.randrange(Q))])
+            s.op("fq2.min", ("q2", z_), tx); s.op("fq2.clamp", tx, ("q2", y), ("q2", z_)); s.op("fq2.clamp", tx, ("q2", z_), ("q2", y))
             s.op("fq2." + rng.choice(["lt", "gt", "pcmp"]), tx, ("q2", (rng.randrange(Q), x[1])))
     H.monitor_script(__import__("props.c18", fromlist=["x"]), s.text(), BUILDS, wd, res, shard)
 
